@@ -57,6 +57,81 @@ class Colony(Process):
         return {'agents': u} if u else {}
 
 
+# ---- daughters that carry their own processes: variables skipped by the divider (null) are completed by the schema default
+EMPTY_HIST = np.zeros(3)
+EMPTY_LOG = []
+
+
+def add_in_place(current, update):
+    current += update
+    return current
+
+
+def append_in_place(current, update):
+    current.append(update)
+    return current
+
+
+class Tally(Process):
+    defaults = {'timestep': 1.0, 'rate': 1.0, 'kind': 'array'}
+
+    def ports_schema(self):
+        if self.parameters['kind'] == 'array':
+            hits = {'_default': EMPTY_HIST, '_updater': add_in_place, '_divider': 'null'}
+        else:
+            hits = {'_default': EMPTY_LOG, '_updater': append_in_place, '_divider': 'null'}
+        return {'internal': {'hits': hits, 'mass': {'_default': 8, '_divider': 'split'}}}
+
+    def next_update(self, timestep, states):
+        if self.parameters['kind'] == 'array':
+            return {'internal': {'hits': np.full(3, self.parameters['rate'] * timestep)}}
+        return {'internal': {'hits': self.parameters['rate']}}
+
+
+class Trigger(Process):
+    defaults = {'timestep': 1.0, 'time': 3}
+
+    def ports_schema(self):
+        return {'clock': {'_default': 0.0, '_updater': 'accumulate'}, 'agents': {}}
+
+    def next_update(self, timestep, states):
+        update = {'clock': timestep}
+        if states['clock'] + timestep == self.parameters['time']:
+            update['agents'] = {'_divide': {'mother': 'm', 'daughters': [{'key': 'm0'}, {'key': 'm1'}]}}
+        return update
+
+
+def check_process_defaults(kind, t_div, extra):
+    fails = []
+    try:
+        eng = Engine(processes={'trigger': Trigger({'time': t_div}), 'agents': {'m': {'tally': Tally({'kind': kind})}}},
+                     topology={'trigger': {'clock': ('clock',), 'agents': ('agents',)},
+                               'agents': {'m': {'tally': {'internal': ('internal',)}}}},
+                     initial_state={'agents': {'m': {'internal': {'mass': 8}}}}, display_info=False, emitter='null')
+        eng.update(t_div + extra)
+        agents = eng.state.get_path(('agents',))
+        if sorted(agents.inner.keys()) != ['m0', 'm1']:
+            return ['expected daughters m0 and m1, found %s' % sorted(agents.inner.keys())]
+        hits = {k: eng.state.get_path(('agents', k, 'internal', 'hits')).value for k in ('m0', 'm1')}
+        masses = [eng.state.get_path(('agents', k, 'internal', 'mass')).value for k in ('m0', 'm1')]
+    except Exception as e:
+        return ['engine raised %s: %s' % (type(e).__name__, str(e)[:200])]
+    if masses != [4, 4]:
+        fails.append('split divider: daughters got masses %s' % masses)
+    if hits['m0'] is hits['m1']:
+        fails.append('the two daughters share one %s object for a variable completed by the schema default' % kind)
+    want = [float(extra)] * 3 if kind == 'array' else [1.0] * extra
+    for k, v in hits.items():
+        if list(v) != want:
+            fails.append('daughter %s should have started from the schema default and counted only for itself (%s), holds %s'
+                         % (k, want, list(v)))
+    if list(EMPTY_HIST) != [0.0, 0.0, 0.0] or EMPTY_LOG != []:
+        fails.append('the default object declared in the schema was modified: %s %s' % (list(EMPTY_HIST), EMPTY_LOG))
+        EMPTY_HIST[:] = 0
+        del EMPTY_LOG[:]
+    return fails[:3]
+
+
 def check(sd):
     rng = random.Random(sd)
     fails = []
@@ -158,7 +233,7 @@ def main():
     a = ap.parse_args()
     if a.replay:
         d = json.load(open(a.replay))['scenario']
-        fails = check(d['rng'])
+        fails = check_process_defaults(*d['process_defaults']) if 'process_defaults' in d else check(d['rng'])
         L.emit_result({'status': 'reproduced' if fails else 'not-reproduced', 'failed': fails})
         return
     n = 200 if a.tier == 'quick' else 3000
@@ -175,6 +250,18 @@ def main():
             failures.append({'id': 'C11.bounded.division#%d: %s' % (i, fails[0][:260]), 'replay': rp})
             if len(failures) >= 3:
                 break
+    for kind in ('array', 'list'):
+        for t_div in (1, 2, 3):
+            for extra in (1, 3):
+                if len(failures) >= 3:
+                    break
+                evaluations += 1
+                fails = check_process_defaults(kind, t_div, extra)
+                distinct.add('pd-%s-%d-%d' % (kind, t_div, extra))
+                if fails:
+                    rp = L.write_replay(a.out, 'C11', 'defaults-%s-%d-%d' % (kind, t_div, extra),
+                                        {'process_defaults': [kind, t_div, extra]}, fails, extra={'driver': 'bounded.c11'})
+                    failures.append({'id': 'C11.bounded.defaults[%s,%d,%d]: %s' % (kind, t_div, extra, fails[0][:260]), 'replay': rp})
     L.emit_result({'status': 'violated' if failures else 'ok', 'evaluations': evaluations,
                    'distinct_nontrivial': len(distinct), 'failures': failures, 'samples': samples,
                    'rule': 'seeded random mother states; every case runs two generations of divisions with in-place updates '
